@@ -472,4 +472,58 @@ func staleDelete(a api, batch uint64, idx int) {
 		m["permissions"] = append(ps, "edited")
 	})
 	one("group", apiRoot+g, func(m map[string]any) { m["comment"] = "c0 edited" })
+
+	// a DELETE and a PUT holding the same tag, released together: at most one succeeds
+	duel := func(obj, path string, create func(round int), edit func(map[string]any)) {
+		for round := 0; round < 8; round++ {
+			create(round)
+			st, hd, b, err := a.do("GET", path, nil, nil)
+			var m map[string]any
+			if err != nil || st != 200 || json.Unmarshal(b, &m) != nil {
+				run.Inconclusive(fmt.Sprintf("delete/update duel: cannot read the %s (%d)", obj, st))
+				return
+			}
+			tag := hd.Get("ETag")
+			edit(m)
+			nb, _ := json.Marshal(m)
+			var wg sync.WaitGroup
+			var stPut, stDel int
+			start := make(chan struct{})
+			wg.Add(2)
+			go func() {
+				defer wg.Done()
+				<-start
+				stPut, _, _, _ = a.do("PUT", path, map[string]string{"If-Match": tag}, nb)
+			}()
+			go func() {
+				defer wg.Done()
+				<-start
+				stDel, _, _, _ = a.do("DELETE", path, map[string]string{"If-Match": tag}, nil)
+			}()
+			close(start)
+			wg.Wait()
+			run.Eval(2)
+			switch {
+			case ok2xx(stPut) && ok2xx(stDel):
+				run.Violation("two-writers-same-tag", fmt.Sprintf("a PUT (%d) and a DELETE (%d) of the same %s, both conditioned on tag %s, were both acknowledged", stPut, stDel, obj, tag), replay)
+				return
+			case ok2xx(stPut):
+				run.Count("duels_won_by_update", 1)
+			case ok2xx(stDel):
+				run.Count("duels_won_by_delete", 1)
+			}
+		}
+	}
+	dg := g + "-duel"
+	duel("group", apiRoot+dg, func(round int) {
+		a.srv.WriteGroup(dg, map[string]any{"comment": "duel" + strings.Repeat("!", round)})
+	}, func(m map[string]any) { m["comment"] = fmt.Sprint(m["comment"], " edited") })
+	ug := g + "-duel2"
+	a.srv.WriteGroup(ug, map[string]any{"comment": "c0", "users": map[string]any{"other": map[string]any{"password": "o", "permissions": "op"}}})
+	duel("user", apiRoot+ug+"/.users/duellist", func(round int) {
+		a.do("PUT", apiRoot+ug+"/.users/duellist", nil, []byte(fmt.Sprintf(`{"permissions":["present","r%s"]}`, strings.Repeat("!", round))))
+	}, func(m map[string]any) {
+		ps, _ := m["permissions"].([]any)
+		m["permissions"] = append(ps, "edited")
+	})
 }
